@@ -351,7 +351,9 @@ PROPS = {
     "C04": {
         "level": "proof",
         "lean_modules": ["SqlizeModel.Props.C04"],
-        "theorems": ["Sqlize.C04.converges", "Sqlize.C04.next_diff_empty", "Sqlize.C04.down_returns", "Sqlize.C04.history_schema"],
+        "theorems": ["Sqlize.C04.converges", "Sqlize.C04.next_diff_empty", "Sqlize.C04.down_returns", "Sqlize.C04.history_schema",
+                     "Sqlize.C04.model_converges", "Sqlize.C04.model_next_diff_empty", "Sqlize.rounds", "Sqlize.schema_up_vocab", "Sqlize.UpScope.of_equiv",
+                     "Sqlize.execAll_textual", "Sqlize.Migration.diff_plain", "Sqlize.Migration.migrate_mem"],
         "suites": [{"name": "history", "timeout": 3600}],
         "corr_points": None,
         "rule": "history suite: revision sequences M1..Mk (k = 2..8 quick, ..40 thorough) of random schemas and C01 change sets (drop table, drop "
@@ -363,7 +365,11 @@ PROPS = {
         "trusted_base": COMMON_TB + PAIR_TB + ["the composition theorem assumes the one-step properties (C01, C02, C03, C05, C07) as hypotheses; their proved parts and findings are listed under those properties"],
         "assumptions": ["file timestamps strictly increase (one write per second)", "old is not re-used after Diff"],
         "explanation": "Proved for histories of any length: convergence, empty next diff, equal fingerprint and the way back, as an assume-guarantee "
-                       "composition of the one-step properties; the real multi-step workflow is driven on every run and every recorded migration is "
+                       "composition of the one-step properties; and on the implementation model itself, without assuming them (model_converges, model_next_diff_empty): "
+                       "for revision lists of any length whose steps are inside the scope of C01.schema_on_reference_engine (MySQL reader model, no foreign keys / inline PRIMARY KEY / COMMENT), "
+                       "the history the workflow writes (each printed up migration appended as it reaches the text) is computed without error, is accepted by the reference engine "
+                       "statement by statement, describes a schema DB.equiv to the newest revision's, and the next diff is empty both ways. Outside that scope, the fingerprint clause and the "
+                       "way back through files: the real multi-step workflow is driven on every run and every recorded migration is "
                        "replayed on the reference engine.",
     },
 
